@@ -11,7 +11,7 @@ import email.policy
 import logging
 import os.path
 import re
-from collections.abc import AsyncIterator, Callable
+from collections.abc import AsyncIterator, Awaitable, Callable
 from contextlib import asynccontextmanager
 from datetime import date, datetime
 from email import message_from_bytes
@@ -471,14 +471,25 @@ class IMAPClientCommand:
     ##################################################################
     #
     @asynccontextmanager
-    async def ready_and_okay(self, mbox: "Mailbox") -> AsyncIterator[None]:
+    async def ready_and_okay(
+        self,
+        mbox: "Mailbox",
+        gate: Callable[["IMAPClientCommand"], Awaitable[None]] | None = None,
+    ) -> AsyncIterator[None]:
         """
         Awaits the `ready` event. No matter what happens, we set the
         command to be completed before exiting.
+
+        `gate`, if given, is awaited once the command has been let through:
+        the mailbox may have changed while the command waited for its turn,
+        and what the client handler checked when the command arrived has to
+        be checked again (it may raise to refuse the command).
         """
         try:
             mbox.task_queue.put_nowait(self)
             await self.ready.wait()
+            if gate is not None:
+                await gate(self)
             if self.error is not None:
                 raise self.error
             if mbox.deleted:
